@@ -61,6 +61,9 @@ func (h *history) record(dm *nom.DetailedMomentum) *histNode {
 			h.blockIn = map[types.Hash][]types.Hash{}
 		}
 		h.blockIn[b.Hash] = append(h.blockIn[b.Hash], n.hash)
+		if h.blk == nil {
+			h.blk = map[types.Hash][]byte{}
+		}
 		h.blk[b.Hash] = bb
 	}
 	h.byHash[n.hash] = n
